@@ -414,8 +414,33 @@ static void c08_case(uint64_t idx)
 	else total = vrng_logsize(&r, 400000);
 	if (total > (A.thorough ? 6000000u : 1500000u)) total = (A.thorough ? 6000000u : 1500000u) - vrng_below(&r, 1000);
 	if (SMODE == SCHED_SERIAL && total > 300000) total = 300000 - vrng_below(&r, 1000);
+	// two cases per chaos run without TSan: one 24 MiB incompressible Block behind a three-filter chain with SHA-256.
+	// Random data makes LZMA2 chunks slightly shorter than 64 KiB, so over some 20 MiB the chunk headers outgrow
+	// lzma_block_buffer_bound()'s slack and the worker falls back to lzma_block_uncomp_encode(), which rewrites the
+	// Block Header for an LZMA2-only chain (smaller than the one reserved): the Index record must follow the rewrite
+#ifdef __SANITIZE_THREAD__
+	const bool big = false;
+#else
+	const bool big = SMODE != SCHED_SERIAL && idx % 350 == 7;
+#endif
+	if (big) {
+		vcfg_free(&cfg); memset(&cfg, 0, sizeof(cfg));
+		lzma_lzma_preset(&cfg.lzma, 0);
+		cfg.delta[0] = (lzma_options_delta){ .type = LZMA_DELTA_TYPE_BYTE, .dist = 1 };
+		cfg.delta[1] = (lzma_options_delta){ .type = LZMA_DELTA_TYPE_BYTE, .dist = 2 };
+		cfg.filters[0] = (lzma_filter){ .id = LZMA_FILTER_DELTA, .options = &cfg.delta[0] };
+		cfg.filters[1] = (lzma_filter){ .id = LZMA_FILTER_DELTA, .options = &cfg.delta[1] };
+		cfg.filters[2] = (lzma_filter){ .id = LZMA_FILTER_LZMA2, .options = &cfg.lzma };
+		cfg.filters[3] = (lzma_filter){ .id = LZMA_VLI_UNKNOWN, .options = NULL };
+		cfg.nfilters = 3; cfg.check = LZMA_CHECK_SHA256;
+		snprintf(cfg.desc, sizeof(cfg.desc), "delta:1,delta:2,lzma2:preset=0/sha256(big incompressible Block)");
+		threads = 2; bs = 24u << 20; timeout = 0; total = (size_t)bs + 4096;
+		hx_count("big_incompressible_block_cases", 1);
+	}
 	vbuf in = {0};
-	int kind = gen_data(&r, &in, total, vrng_chance(&r, 1, 3) ? GD_RANDOM : -1, cfg.lzma.dict_size);
+	int want_kind = vrng_chance(&r, 1, 3) ? GD_RANDOM : -1;
+	if (big) want_kind = GD_RANDOM;
+	int kind = gen_data(&r, &in, total, want_kind, cfg.lzma.dict_size);
 	// script
 	unsigned nseg = 1 + vrng_below(&r, 8);
 	size_t cut[10]; int act[10]; int upd[10];
@@ -426,6 +451,7 @@ static void c08_case(uint64_t idx)
 	// 4: one allocation (or every one from some point on) fails, usually inside a worker thread: the call that notices
 	// must return LZMA_MEM_ERROR - never block - and lzma_end() must give everything back
 	if (!lifecycle && vrng_chance(&r, 1, 8)) lifecycle = 4;
+	if (big) { nseg = 1; cut[0] = total; act[0] = LZMA_RUN; upd[0] = 0; lifecycle = 0; }
 	alloc_mon mon; alloc_mon_init(&mon);
 	if (lifecycle == 4) {
 		static const uint32_t span[] = { 12, 40, 40, 150 };
